@@ -174,6 +174,18 @@ CHECKS = {
              'parser and cached trees must be structurally unchanged since insertion.',
         note='trusted: the uncached parser as reference (its own history independence is C11)',
         design='4/C17'),
+    'C02': dict(
+        engine='E4',
+        technique='reachable-value-shape closure: exhaustive product of every builtin x argument tuples x call syntaxes + operator forms, '
+                  'iterated over new result shapes; plain-data invariant on every node evaluation (external tracer) + Python audit hook',
+        text='Starting from plain data of every shape class, language lambdas and the builtins as values, every key of FUNCTIONS is '
+             'applied to every argument tuple (arity 0-2 full, 3 reduced) in three call syntaxes, together with every operator / index / '
+             'slice / assignment / lambda form, every foreign identifier (attributes of the plain types, Python builtins) as variable and '
+             'call, and failing sources; new result shapes join the pool for the next round. Every value returned by any node, the result '
+             'and the final names must consist of plain data, table builtins and language lambdas only, and no file / process / network / '
+             'import / exec audit event may fire while eval runs.',
+        note='trusted: sys.addaudithook sees the listed activities; shape abstraction (type tree to depth 3) decides what is "new"',
+        design='4/C02'),
 }
 
 NOT_YET = {}
